@@ -20,4 +20,3 @@ for c in $checks; do
   echo "$out" | grep -A3 '^VIOLATION' | head -8 | cut -c1-400
 done
 git -C /repo worktree remove --force $wt
-(cd /verif && ./check build >/dev/null 2>&1)
